@@ -88,6 +88,27 @@ theorem gsum_default_cols {f : Frame} {n : Nat} (hs : f.Sorted) (hr : f.RectN n)
   exact Grouped.foldRows_allColumnNames (fun r => Row.getD r k) k f hpos c
 
 
+/-- grouped by a LIST of columns, no column arguments: every column of the frame is covered — in particular every
+non-key column, whatever its name (after the D20 repair; the pinned code left out a column named "") -/
+theorem gsum_default_cols_list (ω : Oracle) {f : Frame} {n : Nat} (hr : f.RectN n) (hn : 0 < n) (hne : f ≠ [])
+    (ks : List Str) (g : Grouped) (hg : f.groupByList ω ks = .ok g) :
+    ∀ c, c ∈ g.allColumnNames ↔ c ∈ f.keys := by
+  have hpos : 0 < f.nrows := by rw [Frame.nrows_of_rectN hr hne]; exact hn
+  unfold groupByList at hg
+  split at hg
+  · simp at hg
+  · simp only [Outcome.ok.injEq] at hg
+    subst hg
+    intro c
+    exact Grouped.foldRows_allColumnNames_list (fun r => listKey ω ks r) f hpos c
+
+/-- the pinned `GetAllColumnNames` compared every name with `Key`, which is "" for a list grouping: a non-key
+column named "" was left out of the argument-less Sum/Mean (finding D20) -/
+theorem pinned_list_skips_empty_name :
+    let names : List Str := [[], [113]]
+    (names.filter (fun n => !(n == ([] : Str)))) = [[113]] ∧ (names.filter (fun n => !(false && n == ([] : Str)))) = names := by
+  decide
+
 /-- Group a frame by one key column (keys without NaN), sum a value column all of whose cells are finite
 numbers of any Go integer or float width: the grouped sums, added up, equal the frame-level column total. -/
 theorem grouped_sums_add_up (ω : Oracle) {f : Frame} {n : Nat} (hs : f.Sorted) (hr : f.RectN n) (k c : Str)
